@@ -231,6 +231,7 @@ pub struct Bench {
     pub vm: VM,
     pub bg: u8,
     pub touched: Vec<u32>,
+    pub dirty: bool,
 }
 
 impl Bench {
@@ -241,7 +242,7 @@ impl Bench {
                 *b = bg;
             }
         }
-        Bench { vm, bg, touched: Vec::new() }
+        Bench { vm, bg, touched: Vec::new(), dirty: false }
     }
     pub fn set_bg(&mut self, bg: u8) {
         self.bg = bg;
@@ -293,6 +294,16 @@ impl Bench {
             }
         }
         bad
+    }
+    /// memory may hold anything: the next `hard_reset_if_dirty` clears it
+    pub fn mark_dirty(&mut self) {
+        self.dirty = true;
+    }
+    pub fn hard_reset_if_dirty(&mut self) {
+        if self.dirty {
+            self.hard_reset();
+            self.dirty = false;
+        }
     }
     /// reset memory to background without checking (after panics etc.)
     pub fn hard_reset(&mut self) {
